@@ -214,6 +214,158 @@ def memory_width_stream(res, rng, n):
         res.count(('memwidth', i, kind, wdw, rdw), hist={'memory_width_designs': kind})
 
 
+# ---- value profiles for every constant-carrying leaf (Sequence sample lists, Constant values, Reg reset values) -----------------
+# a block may treat a whole LIST by the class of its members (e.g. "every sample fits, nothing to truncate"), so lists are drawn
+# per class as well as mixed: all in range; in range + negatives of small magnitude (|v| < 2**w, incl. -1, -2**(w-1), -(2**w - 1))
+# and NOTHING oversized; oversized only (2**w, -2**w, far beyond); mixed
+VALUE_CLASSES = ['in_range', 'small_neg', 'min_signed', 'minus_one', 'neg_max_mag', 'pow2', 'neg_pow2', 'far_pos', 'far_neg']
+LIST_PROFILES = ['in_range', 'small_neg_only', 'small_neg_and_in_range', 'oversized_only', 'mixed']
+
+
+def profile_value(r, w, cls):
+    m = (1 << w) - 1
+    if cls == 'in_range':
+        return r.choice([0, m, m >> 1, r.randint(0, m)])
+    if cls == 'small_neg':
+        return -r.randint(1, max(1, m))
+    if cls == 'min_signed':
+        return -(1 << (w - 1))
+    if cls == 'minus_one':
+        return -1
+    if cls == 'neg_max_mag':
+        return -max(1, m)
+    if cls == 'pow2':
+        return 1 << w
+    if cls == 'neg_pow2':
+        return -(1 << w)
+    if cls == 'far_pos':
+        return (1 << (w + r.randint(1, 40))) + r.randint(0, m)
+    if cls == 'far_neg':
+        return -((1 << (w + r.randint(1, 40))) + r.randint(0, m))
+    raise Exception(cls)
+
+
+SMALL_NEG = ['small_neg', 'min_signed', 'minus_one', 'neg_max_mag']
+OVERSIZED = ['pow2', 'neg_pow2', 'far_pos', 'far_neg']
+
+
+def profile_list(r, w, n, prof):
+    if prof == 'in_range':
+        return [profile_value(r, w, 'in_range') for _ in range(n)]
+    if prof == 'small_neg_only':
+        return [profile_value(r, w, r.choice(SMALL_NEG)) for _ in range(n)]
+    if prof == 'small_neg_and_in_range':
+        vs = [profile_value(r, w, r.choice(SMALL_NEG + ['in_range', 'in_range'])) for _ in range(n)]
+        vs[r.randint(0, n - 1)] = profile_value(r, w, r.choice(SMALL_NEG))
+        return vs
+    if prof == 'oversized_only':
+        return [profile_value(r, w, r.choice(OVERSIZED)) for _ in range(n)]
+    return [profile_value(r, w, r.choice(VALUE_CLASSES)) for _ in range(n)]
+
+
+def reprofile(plan, r):
+    """rewrites the literal values of every constant-carrying node of a gen_designs plan by profile (the plan's structure, widths
+    and list lengths are kept)"""
+    used = []
+    for j, nd in enumerate(plan['nodes']):
+        rj = r.fork(('reprofile', j))
+        w = nd['outw'][0] if nd['outw'] else 1
+        if nd['kind'] == 'Sequence':
+            prof = rj.choice(LIST_PROFILES)
+            nd['params']['values'] = profile_list(rj, w, len(nd['params']['values']), prof)
+            used.append('Sequence:' + prof)
+        elif nd['kind'] == 'Constant':
+            cls = rj.choice(VALUE_CLASSES)
+            nd['params']['value'] = profile_value(rj, w, cls)
+            used.append('Constant:' + cls)
+        elif nd['kind'] == 'Reg' and nd['params'].get('reset_value') is not None:
+            cls = rj.choice(VALUE_CLASSES)
+            nd['params']['reset_value'] = profile_value(rj, w, cls)
+            used.append('Reg.reset_value:' + cls)
+    return used
+
+
+def stimulus_profile_stream(res, rng, n):
+    """stimulus / constant leaves on their own with downstream logic: Sequence (direct, and behind LogicHelper.sim_sequence;
+    once / cyclic) whose sample list is drawn per LIST profile, a second 1-bit Sequence as reset, a Constant and a Reg reset value
+    drawn per VALUE class; every profile x every small width is visited round-robin (not sampled).  Oracle = range check on every
+    wire after creation, after every clk, inside a listener, and on every sample a Waveform captured"""
+    import py4hw, contextlib, io
+    from py4hw.logic.simulation import Sequence
+    widths = [1, 2, 3, 4, 5, 7, 8, 9, 16, 31, 32, 33, 64]
+    for i in range(n):
+        r = rng.fork(i)
+        prof = LIST_PROFILES[i % len(LIST_PROFILES)]
+        w = widths[(i // len(LIST_PROFILES)) % len(widths)]
+        ccls = VALUE_CLASSES[(i // 3) % len(VALUE_CLASSES)]
+        rcls = VALUE_CLASSES[(i // 7) % len(VALUE_CLASSES)]
+        vals = profile_list(r, w, r.randint(1, 6), prof)
+        rvals = profile_list(r, 1, r.randint(1, 4), r.choice(LIST_PROFILES))
+        once, via_helper = bool(r.randint(0, 1)), r.chance(1, 3)
+        cw, dw, qw = r.choice([w, r.randint(1, 12)]), r.choice([w, w + 1, r.randint(1, 12)]), r.choice([w, r.randint(1, 12)])
+        cval, rval = profile_value(r, cw, ccls), profile_value(r, qw, rcls)
+        desc = dict(design='Sequence s (+ 1-bit Sequence rst) ; Constant c ; Not(s)->ns ; Sub(s,c)->d ; Reg(d, reset=rst, reset_value)->q ; Waveform',
+                    width=w, samples=vals, profile=prof, once=once, via_sim_sequence=via_helper, rst_samples=rvals,
+                    constant=dict(width=cw, value=cval, cls=ccls), reg=dict(width=qw, reset_value=rval, cls=rcls), d_width=dw)
+        hw = py4hw.HWSystem()
+        try:
+            with contextlib.redirect_stdout(io.StringIO()):
+                if via_helper:
+                    s = py4hw.LogicHelper(hw).sim_sequence(w, list(vals))
+                    once = desc['once'] = False
+                else:
+                    s = hw.wire('s', w)
+                    Sequence(hw, 'seq', list(vals), s, once=once)
+                rst = hw.wire('rst', 1)
+                Sequence(hw, 'rseq', list(rvals), rst)
+                c, ns, d, q = hw.wire('c', cw), hw.wire('ns', w), hw.wire('d', dw), hw.wire('q', qw)
+                py4hw.Constant(hw, 'c', cval, c)
+                py4hw.Not(hw, 'not', s, ns)
+                py4hw.Sub(hw, 'sub', s, c, d)
+                py4hw.Reg(hw, 'r', d, q, reset=rst, reset_value=rval)
+                wvf = py4hw.Waveform(hw, 'wvf', [s, rst, c, ns, d, q])
+                sim = hw.getSimulator()
+        except Exception as e:
+            res.hist('build_errors', f'stimulus:{type(e).__name__}:{str(e)[:40]}')
+            continue
+        wires = D.all_wires(hw)
+        where = ['after creation']
+
+        def chk(_d=None, _s=None):
+            for x in wires:
+                v = x.value
+                if not (isinstance(v, int) and not isinstance(v, bool) and 0 <= v < (1 << x.getWidth())):
+                    res.fail(f'wire {x.getFullPath()} width {x.getWidth()} holds {v}',
+                             dict(desc, wire=x.getFullPath(), value=v, clks=sim.total_clks, observed=where[0]))
+                    return False
+            return True
+        good = chk()
+        lst = Listener(None, lambda _d, _s: (where.__setitem__(0, 'inside listener'), chk()), sim)
+        sim.addListener(lst)
+        try:
+            with contextlib.redirect_stdout(io.StringIO()):
+                for t in range(2 * len(vals) + 3):
+                    if not good:
+                        break
+                    sim.clk(r.choice([1, 1, 2]))
+                    where[0] = 'after clk'
+                    good = chk()
+        except Exception as e:
+            res.hist('simulation_errors', f'stimulus:{type(e).__name__}:{str(e)[:30]}')
+        if good:
+            for x, data in wvf.data.items():
+                for t, v in enumerate(data):
+                    if not (isinstance(v, int) and 0 <= v < (1 << x.getWidth())):
+                        res.fail(f'waveform sample of wire {x.getFullPath()} width {x.getWidth()} is {v}',
+                                 dict(desc, wire=x.getFullPath(), value=v, sample_index=t, observed='Waveform capture'))
+                        good = False
+                        break
+                if not good:
+                    break
+        res.count(('stimulus', i, w, prof, str(vals), cval, rval, once, via_helper),
+                  hist={'stimulus_list_profile': prof, 'stimulus_width': w, 'constant_value_class': ccls, 'reset_value_class': rcls})
+
+
 _C07_FAM = None
 
 
@@ -340,6 +492,10 @@ def main(res, tier, rng, replay):
     for i in range(n_designs):
         r = rng.fork(('d', i))
         plan = G.random_plan(r, r.randint(1, 30 if tier == 'quick' else 60), wmax=r.choice([3, 8, 17, 33, 64]), extreme=True)
+        if i % 2 == 1:
+            # every other design: the literal values of Sequence / Constant / Reg.reset_value nodes are redrawn per profile
+            for u in reprofile(plan, r.fork('profiles')):
+                res.hist('design_value_profiles', u)
         try:
             sysobj, ins, W, leaves = G.build(plan, inst_order=r.shuffle(range(len(plan['nodes']))))
             sim = sysobj.getSimulator()
@@ -351,7 +507,13 @@ def main(res, tier, rng, replay):
         chk = range_oracle(res, i, ps)
         ops = G.random_ops(r, ins, r.randint(3, 20), extreme=True)
         try:
-            d0 = D.Dump(sysobj, sim)
+            try:
+                d0 = D.Dump(sysobj, sim)
+            except D.NotDumpable as e:
+                # a leaf class the translator does not (or no longer) cover: no model leg for this design, but the IMPLEMENTATION
+                # is still built, driven and range-checked (nb.add falls back to the oracle-only path)
+                res.hist('oracle_only_designs', str(e)[:40])
+                d0 = D.Dump(sysobj, sim, allow_unknown=True)
             chk(d0, sim)
             sim.addListener(Listener(d0, chk, sim))
             nb.add(sysobj, ops, label=i, extra_check=chk)
@@ -382,13 +544,17 @@ def main(res, tier, rng, replay):
     except ToolFailure as e:
         res.broken.append(('correspondence', 'net-sim', str(e)[:300]))
     user_blocks(res, rng.fork('user'), 40 if tier == 'quick' else 600)
+    stimulus_profile_stream(res, rng.fork('stimulus'), 260 if tier == 'quick' else 5200)
     single_block_stream(res, rng.fork('single'), 300 if tier == 'quick' else 6000)
     constant_reassign_stream(res, rng.fork('const-reassign'), 80 if tier == 'quick' else 1500)
     memory_width_stream(res, rng.fork('memwidth'), 60 if tier == 'quick' else 1200)
     res.cov['rule'] = ('T1: every generated leaf/FSM/Wire definition vs the real method on seeded states (distinct = distinct request '
                        'line); designs: seeded random netlists of primitive leaves with registers/feedback/memories, built in random '
                        'instantiation order, driven by extreme pokes (negative, oversized) and clk(n); every wire range-checked on the '
-                       'implementation after construction, after every op and inside a simulator listener; all values compared with the Lean model')
+                       'implementation after construction, after every op and inside a simulator listener; all values compared with the Lean model '
+                       '(designs with a leaf the translator does not cover run oracle-only); Sequence / Constant / Reg.reset_value literals '
+                       'drawn per value profile (in range, small negatives only, oversized only, mixed) in every other design and, '
+                       'round-robin over profiles x widths, in the stimulus stream (with Waveform capture)')
     res.cov['designs_built'] = built
     res.assumptions += ['leaf methods touch wires only through get/put/prepare (static scan of py4hw/logic for direct .value/.next assignments)',
                         'BidirWire / InOut resolution not modelled beyond the generated put/prepare mask lemmas']
